@@ -72,7 +72,7 @@ CHECKS.update({
     "C15": dict(cat="other", ref="3 C15", technique=OPQ + "; Lut->Esop by path-sensitive abstract interpretation on symbolic tables (every abstract path; for larger n a few symbolic table bits at a time, on sparse and on dense backgrounds); window-mode abstract interpretation of ^ and ! on real cubes over two variables",
         text="value is the XOR of all cubes; ^ concatenates in all four forms; ! appends exactly one constant-one cube; conversion to Lut tabulates value; is_zero/is_one only for the constants. Lut->Esop (all functions for n<=2 quick, 3 thorough; for n = 3..8, thorough 10, functions with a few symbolic table bits and 0 elsewhere): on every path the emitted cubes are all-positive, below 2^n, without duplicate, and exactly the non-zero algebraic-normal-form coefficients of the path's function. On real cubes over a two-variable window ^ and ! denote XOR and complement.",
         note="Lut->Esop for n >= 4 is decided on windows of table bits only (positions with at most two 0 index bits, bit 0, {5, 2^(n-1)}), not for all functions."),
-    "C16": dict(cat="other", ref="3 C16", technique=TOK + "; cube/ecube printers followed on every abstract path of a symbolic object over variable windows, text compared with the object through the grammar",
+    "C16": dict(cat="other", ref="3 C16", technique=TOK + "; cube/ecube printers followed on every abstract path of a symbolic object over variable windows and constant terms over a sparse variable set folded through the Ecube printer, text compared with the object through the grammar",
         text="Cube and Ecube text over windows {0,1,2}, two-digit indices and variable 31: every object prints a product / xor of its literals in increasing order, 1/0 for the constants, distinct objects distinct text. Sop/Soes join their terms with ' | ' and Esop with ' ^ ' (the operator value() reduces with), each term once in order, empty form prints 0. value() of each of the five types is the denotation of its representation (conjunction of literals, zero cube false, parity, OR/XOR of the term values), so the text denotes what value() returns.",
         note="Not decided: precedence beyond the joiner (term text never contains a looser joiner). Windows are samples of the 32 variables; the printer loop is index-generic."),
 })
